@@ -658,21 +658,41 @@ func HarnessDateToken() {
 
 // ---------- H03c: enum names ----------
 
+func verifNameChar(name string) byte {
+	c := ndByte(name)
+	verifAssume(verifAny(verifAll(c >= 'A', c <= 'Z'), c == '_'))
+	return c
+}
+
 func HarnessEnumNames() {
-	// options: prefix "P_" and names UNSPECIFIED, AB, C (symbolic bytes in the names)
-	n1, n2 := string([]byte{'A' + ndByte("n")%26, 'A' + ndByte("n")%26}), string([]byte{'A' + ndByte("n")%26})
-	es := j5reflectEnum("P_", []string{"UNSPECIFIED", n1, n2})
+	// options: prefix "P_" and short names UNSPECIFIED, n1 (three symbolic
+	// characters of A-Z and _, so a short name may itself start with the
+	// prefix), n2 (one letter)
+	n1b := []byte{verifNameChar("n"), verifNameChar("n"), verifNameChar("n")}
+	verifAssume(n1b[0] != '_')
+	verifAssume(n1b[2] != '_')
+	n2b := []byte{verifNameChar("n")}
+	verifAssume(n2b[0] != '_')
+	n1, n2 := string(n1b), string(n2b)
+	names := []string{"UNSPECIFIED", n1, n2}
+	es := j5reflectEnum("P_", names)
 	ef, cell := j5reflect.VerifNewEnum(es)
 	text := string(verifBytes("t", verifParam("T", 4)))
 	err := ef.SetFromString(text)
-	short := text
-	if len(text) >= 2 && text[:2] == "P_" {
-		short = text[2:]
-	}
+	// the canonical spelling is the short name; the prefixed spelling is the
+	// documented alternative. The canonical one wins where both apply to
+	// different options (otherwise the encoder's own output would not come back)
 	want := int32(-1)
-	for i, nm := range []string{"UNSPECIFIED", n1, n2} {
-		if want < 0 && short == nm {
+	for i, nm := range names {
+		if want < 0 && text == nm {
 			want = int32(i)
+		}
+	}
+	if want < 0 && len(text) >= 2 && text[:2] == "P_" {
+		for i, nm := range names {
+			if want < 0 && text[2:] == nm {
+				want = int32(i)
+			}
 		}
 	}
 	if want < 0 {
